@@ -102,16 +102,24 @@ def mutants(props: list[str] | None, verif_seed: int, with_tests: bool = False) 
             rows.append((m["property"], m["name"], "SKIP", str(e)))
             continue
         try:
-            env = dict(os.environ, VERIF_REPO=d, VERIF_SEED=str(verif_seed),
-                       VERIF_EVIDENCE_DIR=os.path.join(d, ".verif-evidence"),
-                       VERIF_REPLAY_DIR=os.path.join(d, ".verif-replays"))
             t0 = time.time()
-            tier_args = ["--tier", "thorough", "--wall", "600"] if m.get("tier") == "thorough" else ["--tier", "quick"]
-            p = subprocess.run([os.path.join(VERIF, "check"), m["property"]] + tier_args,
-                               capture_output=True, text=True, env=env, cwd=VERIF, timeout=1800)
-            viol = [ln for ln in p.stdout.splitlines() if ln.startswith("VIOLATION")]
-            clause = next((ln.strip() for ln in p.stdout.splitlines() if ln.strip().startswith("clause:")), "")
-            status = "KILLED" if p.returncode == 1 and viol else f"SURVIVED(exit {p.returncode})"
+            thorough = m.get("tier") == "thorough"
+            tier_args = ["--tier", "thorough", "--wall", "600"] if thorough else ["--tier", "quick"]
+            # a mutant declared thorough-only has a rare trigger (measured: about one 10-minute batch in two finds
+            # it); it gets up to three batches with different VERIF_SEED values, stopping at the first kill
+            for attempt in range(3 if thorough else 1):
+                env = dict(os.environ, VERIF_REPO=d, VERIF_SEED=str(int(verif_seed) + attempt),
+                           VERIF_EVIDENCE_DIR=os.path.join(d, ".verif-evidence"),
+                           VERIF_REPLAY_DIR=os.path.join(d, ".verif-replays"))
+                p = subprocess.run([os.path.join(VERIF, "check"), m["property"]] + tier_args,
+                                   capture_output=True, text=True, env=env, cwd=VERIF, timeout=1800)
+                viol = [ln for ln in p.stdout.splitlines() if ln.startswith("VIOLATION")]
+                clause = next((ln.strip() for ln in p.stdout.splitlines() if ln.strip().startswith("clause:")), "")
+                status = "KILLED" if p.returncode == 1 and viol else f"SURVIVED(exit {p.returncode})"
+                if status == "KILLED":
+                    if thorough:
+                        clause += f" (thorough tier, batch {attempt + 1})"
+                    break
             rows.append((m["property"], m["name"], status, f"{clause} [{time.time() - t0:.0f}s]"))
         finally:
             shutil.rmtree(d, ignore_errors=True)
